@@ -370,7 +370,7 @@ func init() {
 			"a header naming a type whose body pointer is nil is a caller error outside the statement (it dereferences nil today); not exercised",
 			"the family decoders route on the type octet only; the first octet is judged through PlainNasDecode",
 		},
-		Oracles: map[string]func(*core.Ctx, *core.Case){"grid": c05Grid, "one": c05One, "short": c05Short, "encode": c05Encode, "reuse": c05Reuse},
+		Oracles: map[string]func(*core.Ctx, *core.Case){"grid": c05Grid, "one": c05One, "short": c05Short, "encode": c05Encode, "reuse": c05Reuse, "cold-concurrent": coldConcurrent},
 		Exhaustive: func(tier string) (bool, string) {
 			return true, "all 65 536 (first octet, type) pairs at both header offsets; bodies sampled"
 		},
@@ -426,6 +426,7 @@ func init() {
 				}
 			}})
 		}
+		us = append(us, coldUnit("nas.Message", "decode", "encode"))
 		us = append(us, core.Unit{Name: "short", Weight: 5, Run: func(c *core.Ctx) {
 			c.Do(&core.Case{Oracle: "short", Target: "nas.Message"})
 		}})
@@ -755,7 +756,7 @@ func init() {
 		Interleave:  []string{"decode-pure", "encode-pure"},
 		Rule:        "decode: accepted and rejected inputs (random plans in nine presence patterns, their mutations, repository samples) through the three entry points with the input placed in a slice with guarded spare capacity: input octets, slice header and spare capacity unchanged; no []byte reachable from the message lies inside the input's backing array (address ranges via reflection); flipping every input octet leaves the message deep-equal to its snapshot and vice versa; two runs agree. encode: well-formed messages into buffers pre-filled with 0..64 octets and 0..64 octets of spare capacity: message deep-equal to its snapshot, prefix unchanged, appended bytes equal an encode into an empty buffer, no aliasing between message and output. Non-trivial = accepted input with at least one buffer-backed element, or encode with a non-empty prefill; distinct by bytes.",
 		Assumptions: []string{"address-range comparison uses reflect.Value.Pointer / unsafe on live slices in one goroutine"},
-		Oracles:     map[string]func(*core.Ctx, *core.Case){"decode-pure": c10Decode, "encode-pure": c10Encode, "decode-concurrent": c10DecodeConcurrent, "decode-reuse": c10DecodeReuse},
+		Oracles:     map[string]func(*core.Ctx, *core.Case){"decode-pure": c10Decode, "encode-pure": c10Encode, "decode-concurrent": c10DecodeConcurrent, "decode-reuse": c10DecodeReuse, "cold-concurrent": coldConcurrent},
 	}
 	p.Floors = func(tier string, cov map[string]map[string]int64, cnt map[string]int64) []string {
 		var f []string
@@ -832,6 +833,31 @@ func init() {
 			}})
 		}
 		us = append(us, reuseUnits(sp, "decode-reuse", 30, 600)...)
+		us = append(us, coldUnit("nas.Message", "decode", "encode"))
+		for _, def := range sp.Messages {
+			def := def
+			us = append(us, core.Unit{Name: "behind-64k-" + def.Name, Weight: 20, Run: func(c *core.Ctx) {
+				// a long-lived output buffer: the message is appended behind 65 530..65 541 (and
+				// 131 070..131 074) octets already written; offsets kept in 16 bits wrap here
+				var sizes []int
+				for n := 65530; n <= 65541; n++ {
+					sizes = append(sizes, n)
+				}
+				for n := 131070; n <= 131074; n++ {
+					sizes = append(sizes, n)
+				}
+				for i, n := range sizes {
+					if !c.Thorough() && i%2 == 1 && n > 65541 {
+						continue
+					}
+					b := refcodec.RandomPlan(def, c.R, 1+i%5, c.R.Intn(5)).Bytes()
+					k := &core.Case{Oracle: "encode-pure", Target: "nasMessage." + def.Name, S: []string{def.Name}, B: [][]byte{b, c.R.Pattern(3, n)}, I: []int64{int64(c.R.Intn(65)), int64(i) % 2}}
+					c.Do(k)
+					c.NonTrivial(k.Hash())
+					c.Count("encodes_behind_64k", 1)
+				}
+			}})
+		}
 		us = append(us, domainUnits(sp, msgs, tier, 30, func(c *core.Ctx, d *domainPDU, i int) {
 			if i%3 != 0 && !c.Thorough() {
 				return
